@@ -13,3 +13,22 @@ pub open spec fn round_val_of<const B: Word>(m: Mode, b: int, p: usize, X: int, 
 pub open spec fn rd_val0<T, E>(r: Approximation<T, E>) -> T { match r { Approximation::Exact(v) => v, Approximation::Inexact(v, _) => v } }
 pub open spec fn umax(a: usize, b: usize) -> usize { if a > b { a } else { b } }
 pub open spec fn finite<const B: Word>(r: Repr<B>) -> bool { !(r.significand.v() == 0 && r.exponent != 0) }
+
+// ---- TRUSTED stubs of float/src/repr.rs methods (each contract read off the real function)
+impl<const B: Word> Repr<B> {
+    /// repr.rs `Repr::is_zero`: `self.significand.is_zero() && self.exponent == 0`
+    #[verifier::external_body]
+    pub fn is_zero(&self) -> (r: bool)
+        ensures r == (self.significand.v() == 0 && self.exponent == 0)
+    { unimplemented!() }
+    /// repr.rs `Repr::digits_ub`: "Get the number of the upper bound of digits in the significand" computed from the f32
+    /// estimate `log2_bounds().1` (`log as usize + 1`).  ASSUMED enclosure (f32 arithmetic, not verified): the result is
+    /// not below the exact number of digits, and (generously) at most twice that plus 2 -- the upper bound is only used to
+    /// rule out usize overflow in `digits_ub + 1 + precision`; 0 for a zero significand.  Panics on infinities.
+    #[verifier::external_body]
+    pub fn digits_ub(&self) -> (r: usize)
+        requires B >= 2, !(self.significand.v() == 0 && self.exponent != 0)
+        ensures r >= ndigits(B as int, self.significand.v()), r <= 2 * ndigits(B as int, self.significand.v()) + 2,
+            self.significand.v() == 0 ==> r == 0
+    { unimplemented!() }
+}
